@@ -672,7 +672,7 @@ func runExp(m *model.Model, s *ob.Set) {
 		}
 	}
 	if nsites < 5 {
-		model.Fatal("EXP: only %d exponent sites found", nsites)
+		model.Blind("EXP: only %d exponent sites found", nsites)
 	}
 }
 
@@ -940,7 +940,7 @@ func runOverlap(m *model.Model, s *ob.Set) {
 		}
 	}
 	if nK < 4 {
-		model.Fatal("OVERLAP: only %d in-place kernel sites found", nK)
+		model.Blind("OVERLAP: only %d in-place kernel sites found", nK)
 	}
 }
 
@@ -1017,7 +1017,7 @@ func runNormArg(m *model.Model, s *ob.Set) {
 		}
 	}
 	if n < 1 {
-		model.Fatal("NORMARG: only %d calls of dec.cmp found", n)
+		model.Blind("NORMARG: only %d calls of dec.cmp found", n)
 	}
 }
 
@@ -1203,7 +1203,7 @@ func runInit(m *model.Model, s *ob.Set) {
 		}
 	}
 	if n < 2 {
-		model.Fatal("INIT: only %d accumulating sites with a locally owned buffer found", n)
+		model.Blind("INIT: only %d accumulating sites with a locally owned buffer found", n)
 	}
 }
 
@@ -1367,7 +1367,7 @@ func runShiftDir(m *model.Model, s *ob.Set) {
 		}
 	}
 	if n < 1 {
-		model.Fatal("SHIFTDIR: only %d shift counts computed as a signed difference found", n)
+		model.Blind("SHIFTDIR: only %d shift counts computed as a signed difference found", n)
 	}
 }
 
@@ -1568,7 +1568,7 @@ func runLowCut(m *model.Model, s *ob.Set) {
 		}
 	}
 	if n < 1 {
-		model.Fatal("LOWCUT: no low cut of a mantissa found at all (round, GobEncode, toa expected): the rule is blind")
+		model.Blind("LOWCUT: no low cut of a mantissa found at all (round, GobEncode, toa expected): the rule is blind")
 	}
 }
 
